@@ -66,10 +66,14 @@ def PrimTy.show : PrimTy → Name
   | .f32 => "f32".toList | .f64 => "f64".toList | .bool => "bool".toList | .char => "char".toList
   | .ptr => "ptr".toList | .none => "()".toList
 
+def digitChar : Nat → Char
+  | 0 => '0' | 1 => '1' | 2 => '2' | 3 => '3' | 4 => '4'
+  | 5 => '5' | 6 => '6' | 7 => '7' | 8 => '8' | _ => '9'
+
 /-- decimal rendering of a natural number (fuel = the number itself, always enough) -/
 def showNatF : Nat → Nat → List Char
-  | 0, n => [Char.ofNat (48 + n % 10)]
-  | fuel + 1, n => if n < 10 then [Char.ofNat (48 + n)] else showNatF fuel (n / 10) ++ [Char.ofNat (48 + n % 10)]
+  | 0, n => [digitChar (n % 10)]
+  | fuel + 1, n => if n < 10 then [digitChar n] else showNatF fuel (n / 10) ++ [digitChar (n % 10)]
 
 def showNat (n : Nat) : List Char := showNatF n n
 
